@@ -2,11 +2,12 @@ package vuego
 
 import (
 	"fmt"
-	"strings"
 	"sync"
 
 	"github.com/expr-lang/expr"
 	"github.com/expr-lang/expr/vm"
+
+	"github.com/titpetric/vuego/internal/helpers"
 )
 
 // ExprEvaluator wraps expr for evaluating boolean and interpolated expressions.
@@ -32,7 +33,8 @@ func NewExprEvaluator() *ExprEvaluator {
 //   - Function calls: len(items), isActive(v)
 //   - Literals: 42, "text", true, false.
 func (e *ExprEvaluator) Eval(expression string, env map[string]any) (any, error) {
-	expression = strings.ReplaceAll(expression, "===", "==")
+	// === and !== are accepted as == and != in every position, not only in v-if
+	expression = helpers.NormalizeComparisonOperators(expression)
 
 	// Get or compile the program
 	prog, err := e.getProgram(expression)
